@@ -233,4 +233,13 @@ theorem C15_resumes_sleeps (r : Nat) : ∀ (as : List Att) (t i : Nat) (o : Opti
     simp only [attsTrace, List.filterMap_append, hc, hr, ih, List.length_cons]
     simp [List.replicate_succ]
 
+/-- **C15_resumes_recogniser_sound** — the driver op `s-c15-resumes` (= `resumesOfWorld`) answers with a skeleton only for
+    worlds `C15_resumes` quantifies over (at least one attempt that fails or is established-then-lost with legal traffic
+    before the loss, then a connection with legal traffic closed by the server), and its answer is the theorem's closed
+    form for that world: what the harness compares the REAL runs with is the statement of the theorem, not a re-implementation. -/
+theorem C15_resumes_recogniser_sound (r : Nat) (w : List Dial) (tr : Trace) (h : resumesOfWorld r w = some tr) :
+    ∃ a as legal te body, w = (a :: as).map Att.toDial ++ [.established (legal ++ [te])] ∧ (∀ x ∈ a :: as, x.Ok) ∧
+      (∀ e ∈ legal, isLegal e.ev = true) ∧ te.ev = .close body ∧ tr = resumesSkeleton r a as (legal ++ [te]) :=
+  resumesOfWorld_sound r w tr h
+
 end WS.Props.C15c
